@@ -91,6 +91,7 @@ func TestWorker(t *testing.T) {
 	start := time.Now()
 	n := 0
 	sweepsDone := 0
+	skippedBases := 0
 	debug.SetMaxStack(256 << 20) // unbounded recursion dies quickly instead of eating 1 GB first
 	startWatchdog()
 	for idx := wi; idx < maxRuns; idx += wn {
@@ -115,9 +116,47 @@ func TestWorker(t *testing.T) {
 				maxReq = 90
 			}
 			aborted := false
-			if nreq > 0 && nreq <= maxReq && br.Machinery == "" && !br.Inconcl {
+			// which requests to fault: all of them, or - quick tier, base too long for a complete
+			// sweep - those issued by passes of an owner being torn down (deletion, archival)
+			var targets []int
+			partial := false
+			if nreq > 0 && nreq <= maxReq {
+				for i := 0; i < nreq; i++ {
+					targets = append(targets, i)
+				}
+			} else if l, ok := br.Extra["sweep_teardown_idx"].([]any); ok && os.Getenv("VERIF_TIER") != "thorough" {
+				partial = true
+				for _, x := range l {
+					if f, ok := x.(float64); ok && len(targets) < 60 {
+						targets = append(targets, int(f))
+					}
+				}
+			}
+			if _, td := br.Extra["sweep_has_teardown"]; !td && os.Getenv("VERIF_TIER") != "thorough" && skippedBases < 4 {
+				// quick tier: spend the one sweep of this worker on a base that tears something down
+				skippedBases++
+				targets = nil
+			}
+			{
+				seen := cs.RunResult{Spec: base, Extra: map[string]any{"sweep_bases_seen": float64(1)}}
+				seen.Spec.Mode = "sweep-summary"
+				if nreq > maxReq {
+					seen.Extra["sweep_bases_longer_than_complete_limit"] = float64(1)
+				}
+				if _, td := br.Extra["sweep_has_teardown"]; td {
+					seen.Extra["sweep_bases_with_teardown"] = float64(1)
+				}
+				if br.Inconcl || br.Machinery != "" {
+					seen.Extra["sweep_bases_unusable"] = float64(1)
+				}
+				_ = enc.Encode(seen)
+			}
+			if len(targets) > 0 && br.Machinery == "" && !br.Inconcl {
 				sweepsDone++
-				for i := 0; i < nreq && !aborted; i++ {
+				for _, i := range targets {
+					if aborted {
+						break
+					}
 					if time.Since(start) > 2*wall {
 						aborted = true
 					}
@@ -132,7 +171,12 @@ func TestWorker(t *testing.T) {
 						_ = enc.Encode(compact(r, len(r.Viol) > 0 || r.Machinery != ""))
 					}
 				}
-				if !aborted {
+				if !aborted && partial {
+					done := cs.RunResult{Spec: base, Extra: map[string]any{"sweep_partial_bases_completed": float64(1), "sweep_partial_requests": float64(len(targets))}}
+					done.Spec.Mode = "sweep-summary"
+					_ = enc.Encode(done)
+				}
+				if !aborted && !partial {
 					done := cs.RunResult{Spec: base, Extra: map[string]any{"sweep_bases_completed": float64(1), "sweep_base_requests": float64(nreq)}}
 					done.Spec.Mode = "sweep-summary"
 					_ = enc.Encode(done)
